@@ -13,6 +13,149 @@ import (
 func doMore(repo, outDir string) {
 	doMemory(repo, outDir)
 	doMisc(repo, outDir)
+	doConfig(repo, outDir)
+}
+
+// doConfig: the three allow-lists of NewConfigFromFile, the order of confParsers, the port regex literals, the model test
+func doConfig(repo, outDir string) {
+	var b strings.Builder
+	b.WriteString(header)
+	b.WriteString("namespace Verif.Generated\n\n")
+	ok := true
+	cfiles := parseDir(filepath.Join(repo, "emuconfig"))
+	consts := map[string]string{}
+	for _, f := range cfiles {
+		for _, d := range f.Decls {
+			gd, isGen := d.(*ast.GenDecl)
+			if !isGen || gd.Tok != token.CONST {
+				continue
+			}
+			for _, sp := range gd.Specs {
+				vs := sp.(*ast.ValueSpec)
+				for i, n := range vs.Names {
+					if i < len(vs.Values) {
+						if bl, isLit := vs.Values[i].(*ast.BasicLit); isLit && bl.Kind == token.STRING {
+							consts[n.Name] = strings.Trim(bl.Value, "\"")
+						}
+					}
+				}
+			}
+		}
+	}
+	cfns := funcs(cfiles)
+	fd, found := cfns["NewConfigFromFile"]
+	if !found {
+		fail("config.allow", "NewConfigFromFile not found")
+		ok = false
+	} else {
+		lists := map[string][]string{}
+		ast.Inspect(fd.Body, func(n ast.Node) bool {
+			as, isAs := n.(*ast.AssignStmt)
+			if !isAs || len(as.Lhs) != 1 || len(as.Rhs) != 1 {
+				return true
+			}
+			cl, isCl := as.Rhs[0].(*ast.CompositeLit)
+			id, isId := as.Lhs[0].(*ast.Ident)
+			if !isCl || !isId {
+				return true
+			}
+			if _, isMap := cl.Type.(*ast.MapType); !isMap {
+				return true
+			}
+			vals := []string{}
+			for _, el := range cl.Elts {
+				kv := el.(*ast.KeyValueExpr)
+				key := exprString(kv.Key)
+				if v, isConst := consts[key]; isConst {
+					key = v
+				} else {
+					key = strings.Trim(key, "\"")
+				}
+				if exprString(kv.Value) == "true" {
+					vals = append(vals, key)
+				}
+			}
+			sort.Strings(vals)
+			lists[id.Name] = vals
+			return true
+		})
+		for _, name := range []string{"allowedMemModels", "allowedCpuModels", "allowedAsmTypes"} {
+			v, have := lists[name]
+			if !have {
+				fail("config.allow", name+" not found")
+				ok = false
+				continue
+			}
+			fmt.Fprintf(&b, "def %s : List String := %s\n", name, leanStrList(v))
+		}
+	}
+	// var confParsers []ConfParser = []ConfParser{ memory.NewStdOutProcessorFromConfig, ... }
+	parsers := []string{}
+	for _, f := range cfiles {
+		for _, d := range f.Decls {
+			gd, isGen := d.(*ast.GenDecl)
+			if !isGen || gd.Tok != token.VAR {
+				continue
+			}
+			for _, sp := range gd.Specs {
+				vs := sp.(*ast.ValueSpec)
+				if len(vs.Names) == 1 && vs.Names[0].Name == "confParsers" && len(vs.Values) == 1 {
+					if cl, isCl := vs.Values[0].(*ast.CompositeLit); isCl {
+						for _, el := range cl.Elts {
+							parsers = append(parsers, exprString(el))
+						}
+					}
+				}
+			}
+		}
+	}
+	if len(parsers) == 0 {
+		fail("config.parsers", "confParsers not found")
+		ok = false
+	}
+	fmt.Fprintf(&b, "\n/-- `confParsers`, in order -/\ndef confParsers : List String := %s\n", leanStrList(parsers))
+	mem := funcs(parseDir(filepath.Join(repo, "memory")))
+	for _, name := range []string{"NewStdOutProcessorFromConfig", "NewPrinterProcessorFromConfig"} {
+		pf, have := mem[name]
+		if !have {
+			fail("config.ports", name+" not found")
+			ok = false
+			continue
+		}
+		fmt.Fprintf(&b, "def regex_%s : List String := %s\n", name, leanStrList(regexLiterals(pf)))
+	}
+	// NewCpu: `if c.Model != Proc6502 { model = cpu.Model65C02 }`
+	if nc, have := cfns["NewCpu"]; have {
+		test := ""
+		ast.Inspect(nc.Body, func(n ast.Node) bool {
+			ifs, isIf := n.(*ast.IfStmt)
+			if !isIf || test != "" {
+				return true
+			}
+			if be, isBin := ifs.Cond.(*ast.BinaryExpr); isBin && exprString(be.X) == "c.Model" {
+				rhs := exprString(be.Y)
+				if v, isConst := consts[rhs]; isConst {
+					rhs = v
+				}
+				body := ""
+				if len(ifs.Body.List) == 1 {
+					if as, isAs := ifs.Body.List[0].(*ast.AssignStmt); isAs && len(as.Rhs) == 1 {
+						body = exprString(as.Rhs[0])
+					}
+				}
+				test = fmt.Sprintf("%s %s => %s", be.Op.String(), rhs, body)
+			}
+			return true
+		})
+		fmt.Fprintf(&b, "\n/-- the CPU model test of NewCpu: `<op> <constant> => <model assigned when true>` (default Model6502) -/\ndef cpuModelTest : String := %q\n", test)
+	} else {
+		fail("config.model", "NewCpu not found")
+		ok = false
+	}
+	b.WriteString("\nend Verif.Generated\n")
+	if ok {
+		writeIfChanged(filepath.Join(outDir, "Config.lean"), b.String())
+	}
 }
 
 var typeBits = map[string]int{"uint8": 8, "byte": 8, "uint16": 16, "uint32": 32, "uint64": 64, "uint": 64, "int": 63, "int32": 31, "int64": 63}
